@@ -125,6 +125,12 @@ func (uv *UtxoVM) CheckInputEqualOutput(tx *pb.Transaction) error {
 		uv.log.Warn("coinbase tx must not have inputs", "txid", utils.F(tx.Txid))
 		return ErrUnexpected
 	}
+	// ... nor may it carry a read / write set or contract requests: it is exempt from ImmediateVerifyTx, so
+	// whatever rides on it would be applied by xmodel.DoTx unsigned and unverified
+	if tx.Coinbase && (len(tx.TxInputsExt) > 0 || len(tx.TxOutputsExt) > 0 || len(tx.ContractRequests) > 0) {
+		uv.log.Warn("coinbase tx must not carry a read/write set or contract requests", "txid", utils.F(tx.Txid))
+		return ErrUnexpected
+	}
 	// then we check inputs
 	inputSum := big.NewInt(0)
 	curLedgerHeight := uv.ledger.GetMeta().TrunkHeight
